@@ -136,13 +136,39 @@ def run(ctx):  # noqa: C901
                 (a11, a12), (a21, a22) = rows[1][1:], rows[2][1:]
                 okb = {repr(a11), repr(a22)} == {repr(("n", "choi_1")), repr(("n", "choi_2"))} and {repr(a12), repr(a21)} == {repr(("n", "q_var")), repr(("dag", ("n", "q_var")))}
         ctx.ob("R-SDP", cf, "[[J1, Q^+], [Q, J2]] >= 0", okb, "block constraint" if okb else "block constraint missing or altered")
-        lin = [c for c in reach if c.rel in ("<=", ">=") and "lam" in repr(c.sides())]
-        okl = False
+        lin = [c for c in reach if c.rel in ("<=", ">=", ">>", "<<") and "lam" in repr(c.sides())]
+        okl, whyl = False, "missing or altered"
+        hi = ("c", None)
         if lin:
             c = lin[0]
-            lo, hi = (c.lhs, c.rhs) if c.rel == "<=" else (c.rhs, c.lhs)
-            okl = lo[0] == "*" and ("n", "lam") in lo[1] and any(x[0] == "call" and x[1] in ("numpy.identity", "numpy.eye") for x in lo[1]) and \
-                hi[0] == "call" and hi[1] == "cvxpy.real" and "partial_trace" in repr(hi) and "q_var" in repr(hi)
+            lo, hi = (c.lhs, c.rhs) if c.rel in ("<=", "<<") else (c.rhs, c.lhs)
+            hi = Nc(Ni.env.single[hi[1]]) if hi[0] == "n" and hi[1] in Ni.env.single else hi
+            # Hermitian part of T = Tr_out Q:  (T + T^+) / 2  (T may be a local or the partial_trace call itself)
+            herm = None
+            if hi[0] == "*" and ("c", Fraction(1, 2)) in hi[1] and len(hi[1]) == 2:
+                sm = [x for x in hi[1] if x != ("c", Fraction(1, 2))][0]
+                if sm[0] == "+" and len(sm[1]) == 2:
+                    a, b = sm[1]
+                    if a == ("dag", b):
+                        herm = b
+                    elif b == ("dag", a):
+                        herm = a
+            if herm is not None and herm[0] == "n" and herm[1] in Ni.env.single:
+                herm = Nc(Ni.env.single[herm[1]])
+            lam_i = lo[0] == "*" and ("n", "lam") in lo[1] and any(x[0] == "call" and x[1] in ("numpy.identity", "numpy.eye") for x in lo[1]) and len(lo[1]) == 2
+            if c.rel in ("<=", ">="):
+                whyl = (f"`{c.rel}` between cvxpy matrix expressions compares entry by entry: it forces the off-diagonal entries of Re Tr_out Q to be >= 0 and is not "
+                        "the Loewner order lam*I <= Re(Tr_out Q) of the definition (identity channel vs a real rotation by 0.4: 0.0013 instead of cos 0.4)")
+            elif herm is None:
+                whyl = (f"the bounded operator `{show(hi)[:70]}` is not the Hermitian part (T + T^+)/2 of T = Tr_out Q"
+                        + (": the entrywise real part is a different operator for complex Q" if "cvxpy.real" in repr(hi) else ""))
+            elif not lam_i:
+                whyl = f"lower side `{show(lo)[:60]}` is not lam * identity(dim)"
+            elif not ("partial_trace" in repr(herm) and "q_var" in repr(herm)):
+                whyl = f"`{show(herm)[:60]}` is not a partial trace of Q"
+            else:
+                okl, whyl = True, "(T + T^+)/2 >> lam * I with T = partial_trace(Q, [1], [d, d])"
+            hi = herm if herm is not None else hi
             # dimension algebra: dims [d, d] of a (c, c) operand
             pt = [s for s in subterms(hi) if isinstance(s, tuple) and s and s[0] == "call" and str(s[1]).endswith("partial_trace.partial_trace")]
             if pt:
@@ -159,7 +185,7 @@ def run(ctx):  # noqa: C901
                            "(log2 of the Choi size is its square root only for sizes 4 and 16)", pt[0] if False else None, required=sm is not None)
                 ok1 = d.get("sys") == ("list", ("c", 1))
                 ctx.ob("R-BASE", cf, "the output factor (subsystem 1, 0-based) is traced", ok1, "partial_trace(Q, [1], [d, d])" if ok1 else f"sys {show(d.get('sys'))}")
-        ctx.ob("R-SDP", cf, "lambda I <= Re Tr_out Q", okl, "linear matrix inequality present" if okl else "missing or altered")
+        ctx.ob("R-SDP", cf, "lambda I <= Re Tr_out Q in the Loewner order (Re = Hermitian part)", okl, whyl, lin[0].node if lin and hasattr(lin[0], "node") else None)
         d = sk.dangling()
         ctx.ob("R-SDP", cf, "S1 every constraint reaches the problem", not d, "ok" if not d else "dropped")
         oke2 = any(any(kw.arg == "eps" and unparse(kw.value) == "eps" for kw in c.keywords) for c in sk.solves)
